@@ -44,7 +44,10 @@ def gl_rows(case):
     big = np.zeros((2 * len(W), 2 * K))
     big[::2, ::2] = W
     outV = P.linear_prox_grad(big[::2, ::2], alpha)
-    if not (np.array_equal(out, outF) and np.array_equal(out, outV)):
+    # same values whatever the layout (summation order may differ in the last bits for long rows; exact zeros must be the same zeros)
+    def _same(a, b):
+        return a.shape == b.shape and np.array_equal(a == 0, b == 0) and np.allclose(a, b, rtol=1e-12, atol=0)
+    if not (_same(out, outF) and _same(out, outV)):
         v.append(violation("result_depends_on_memory_layout", {"K": K, "alpha": alpha}, op="linear_prox_grad"))
     if out.shape != W.shape:
         return {"v": [violation("shape", f"{out.shape} vs {W.shape}", op="linear_prox_grad")]}
@@ -225,6 +228,19 @@ def explorers(tier, seed):
                 for p in parts[d]:
                     c4.append(("hierg", d, K, h, a, M, p, None))
     c4 += [("hierg", 4, 2, 3, a, M, p, gseed) for a in (0.3, 1.7) for M in (0.7, 10.0) for p in parts[4]]
+    # large shapes (vectorised / blocked rewrites only differ from the loop version beyond toy sizes): many clusters, hidden units, features,
+    # and partitions into non-contiguous groups of uneven sizes given in shuffled order
+    def big_partition(d, t):
+        rs_ = np.random.RandomState(gseed + d + t)
+        order = rs_.permutation(d)
+        cuts = np.sort(rs_.choice(np.arange(1, d), size=max(1, d // 6), replace=False))
+        groups = [tuple(int(i) for i in g) for g in np.split(order, cuts)]
+        rs_.shuffle(groups)
+        return tuple(groups)
+    c1 += [("gl", K, a, gseed + K) for K in (40, 300) for a in (0.0, 0.3, 1.7, 12.0)]
+    c2 += [("glg", d, K, a, big_partition(d, t), gseed + t) for d, K in ((24, 3), (60, 8), (150, 2)) for a in (0.0, 0.3, 1.7, 6.0) for t in range(2)]
+    c3 += [("hier", K, h, a, M, None, gseed + 7 * K + h) for K, h in ((30, 50), (3, 200), (64, 2)) for a in (0.0, 0.3, 1.7) for M in (0.0, 0.7, 10.0)]
+    c4 += [("hierg", d, K, h, a, M, big_partition(d, t), gseed + t) for d, K, h in ((24, 3, 5), (60, 4, 20)) for a in (0.3, 1.7) for M in (0.7, 10.0) for t in range(2)]
     menu = f"entries in {MENU}"
     return [
         Explorer("grouplasso_rows", "props.c05", "gl_rows", c1, chunk=1, floor=50,
